@@ -20,10 +20,17 @@ def load_unit(uid):
 
 
 def known_findings():
+    """the committed known-findings file (merged from the units' findings.json fragments by bin/mkmanifest); never written at run time"""
+    out = {}
     path = os.path.join(VERIF, 'known_findings.json')
-    if not os.path.exists(path):
-        return []
-    return json.load(open(path)).get('findings', [])
+    if os.path.exists(path):
+        for f in json.load(open(path)).get('findings', []):
+            out[f['id']] = f
+    import glob
+    for frag in glob.glob(os.path.join(VERIF, 'units', '*', 'findings.json')):
+        for f in json.load(open(frag)):
+            out.setdefault(f['id'], f)
+    return list(out.values())
 
 
 def label_of(ob, proof):
